@@ -873,13 +873,30 @@ def get_type_hint(expr, context: ctx.Context, namespace: Tuple[str],
     # type variables coming from the function's declaration.
     names = []
 
-    def _comp_type(t, name, type_args):
+    def _call_result(decl, t):
+        # Calling a variable or a field of a function type (instead of a
+        # declared function) yields the last type argument of that type.
+        if t is None or isinstance(decl, ast.FunctionDeclaration):
+            return t
+        if not t.is_parameterized():
+            return None
+        ret_type = t.type_args[-1]
+        if ret_type.is_wildcard():
+            ret_type = ret_type.get_bound_rec()
+        return ret_type
+
+    def _comp_type(t, name, type_args, is_call=False):
         if t is None:
             return None
         decl = get_decl_from_inheritance(t, name, context)
         if decl is None:
             return None
         decl, rec_t = decl
+        if is_call and not isinstance(decl, ast.FunctionDeclaration):
+            type_param_map = (rec_t.get_type_variable_assignments()
+                              if rec_t.is_parameterized() else {})
+            return _call_result(
+                decl, tp.substitute_type(decl.get_type(), type_param_map))
         if decl.get_type().has_type_variables():
             if rec_t.is_parameterized():
                 # Here, the return type can have a type parameter taken
@@ -900,8 +917,8 @@ def get_type_hint(expr, context: ctx.Context, namespace: Tuple[str],
     def _return_type_hint(t):
         if not names:
             return t
-        for name, type_args in reversed(names):
-            t = _comp_type(t, name, type_args)
+        for name, type_args, is_call in reversed(names):
+            t = _comp_type(t, name, type_args, is_call)
             if t is None:
                 return None
         return t
@@ -963,17 +980,18 @@ def get_type_hint(expr, context: ctx.Context, namespace: Tuple[str],
             if expr.receiver is None:
                 funcdecl = ctx.get_decl(context, namespace, expr.func)
                 return _return_type_hint(
-                    None if funcdecl is None else funcdecl[1].get_type())
+                    None if funcdecl is None else _call_result(
+                        funcdecl[1], funcdecl[1].get_type()))
             # Beyond function's name, we also pass the type arguments of
             # the function
-            names.append((expr.func, expr.type_args or []))
+            names.append((expr.func, expr.type_args or [], True))
             expr = expr.receiver
 
         elif isinstance(expr, ast.FunctionReference):
             return expr.signature
 
         elif isinstance(expr, ast.FieldAccess):
-            names.append((expr.field, []))
+            names.append((expr.field, [], False))
             expr = expr.expr
 
         else:
